@@ -102,9 +102,11 @@ Definition packetise (pid : N) (l : list item) : bytes := concat (ser_items pid 
    payload unit would start (ISO 13818-1 2.4.4.2), so such a cut is not a packetisation of one unit *)
 Definition inner_end (c : carrier) (k : N) : Prop :=
   exists i, (1 <= i <= length (pre c))%nat /\ k = 1 + pf c + len (ser_pre (firstn i (pre c))).
+(* PID field of a transport packet: low 5 bits of byte 1, byte 2 *)
+Definition pid_of (p : bytes) : N := (nthN p 1 mod 32) * 256 + nthN p 2.
 Definition wf_item (pid : N) (it : item) : Prop :=
   match it with
-  | Other p => len p = 188 /\ pkt_pid p <> Ok pid
+  | Other p => len p = 188 /\ is_bytes p /\ pid_of p <> pid
   | Mine m af ch => wf_pkt_parts pid m af ch
   end.
 (* no packet boundary of the PMT PID falls on an inner section end *)
